@@ -138,18 +138,18 @@ register("C15", "exploration",
 LEVELS = {
     "C16": ("proof",
             "Proof: every postcondition of remove_unloaded taken from the property statement (returned list = deleted set, never deletes a protected node for either value of the flag, survivors keep type/output/fan-in, fixpoint, graph invariant, registry untouched) is discharged by z3 on VCs generated from the current source of the real method, with the worklist invariant of DESIGN 8/C16; M2 (Lean-checked) links the proved local facts to 'exactly the dead logic'. The bounded stand-in of the same contract runs as cross-check and counterexample finder.",
-            "assumed: networkx DiGraph contracts (pyvc/models.py); layer-1 contracts are proved (refines obligations); acyclicity only enters through M2; termination not proved"),
+            "assumed: networkx DiGraph contracts (pyvc/models.py); the contracts of the Circuit methods it calls (remove: verified by C07's check; fanin, fanout, type, is_output: by C12's check) are used, not re-verified here; acyclicity only enters through M2; termination not proved"),
     "C20": ("proof",
             "Proof for lint itself: 'raises ValueError iff a documented rule is violated, raises nothing else, touches nothing' is discharged for all 16 flag combinations at once (flags symbolic) on VCs generated from the real source, with per-rule loop invariants. Second half (library outputs are lint-clean) is bounded: generators, parser outputs and transform results are checked against the spec predicate, not against cg.lint.",
-            "assumed: networkx contracts; string facts about '.' are uninterpreted (has_dot / prefix before the first dot) and shared by code model and spec"),
+            "assumed: networkx contracts; contracts of Circuit.type/fanin/fanout/is_output/nodes are verified by C12's check and used here; string facts about '.' are uninterpreted (has_dot / prefix before the first dot) and shared by code model and spec"),
     "C01": ("proof",
             "Proof: sat.cnf is sound and complete per gate arm for an arbitrary assignment (and/nand/or/nor with unbounded fan-in, buf/not/bb_input incl. undriven, constants, inputs, parity gates with 1..2 drivers, every node variable occurs in a clause); add_assumptions, construct_solver and solve are proved against that contract and the assumed pysat contract (False only if no consistent valuation agrees with A; otherwise a total, consistent valuation agreeing with A; ValueError only for unencodable types / unknown assumption keys). Parity gates with >=3 drivers (the auxiliary chain) are covered by the bounded stand-in only.",
-            "assumed: pysat contract (python-sat absent; shim written to it), networkx contracts; M1, M6 (Lean-checked) for the functional reading / witness extension; parity chain >=3: bounded"),
+            "assumed: pysat contract (python-sat absent; shim written to it), networkx contracts; contracts of Circuit.type/fanin/nodes verified by C12's check; M1, M6 (Lean-checked) for the functional reading / witness extension; parity chain >=3: bounded"),
     "C04": ("proof",
             "Proof: the structural postcondition of tx.miter (node set, disjointness from add()'s existence checks, copies with inputs turned into buffers, ties, xor per endpoint, or/buf output, inputs = tied startpoints, outputs = {sat}, arguments untouched, fresh result) is discharged on the real body for self/pair and default/explicit startpoint-endpoint variants, and the encoding lemma (sat <=> some compared endpoint differs; ties; untied copy inputs free) is discharged over that structure. solve(miter,{sat:1}) then follows from the C01 contract. Bounded stand-in as cross-check.",
-            "assumed: contract of Circuit.add_subcircuit (contracts/layer2.py; bounded-checked by C06), networkx contracts; M1, M5 (graph-isomorphism invariance of consistency, not Lean-checked)"),
+            "contracts used, each verified by the check of its home property: Circuit.add, connect (C07), startpoints, endpoints (C12), add_subcircuit for the call shape miter uses (C06: body == contract); assumed: networkx contracts; M1, M5 (graph-isomorphism invariance of consistency, not Lean-checked)"),
     "C19": ("proof",
-            "Proof of the frame condition by an effect / may-alias analysis over the real ASTs (pyvc/frame.py): for each of the 64 public functions of tx, props, sat, the io writers, utils.lint/visualize and the read-only Circuit methods, every potentially mutating operation (Circuit mutators, networkx graph mutators, dict/attribute stores, in-place relabel) is shown to be applied only to objects allocated in that activation, on all branches and exceptional edges, and every returned circuit (also inside returned containers) is shown not to share its graph, node-attribute dicts or registry with an argument. Read-only Circuit methods additionally have exact view contracts proved on their bodies. Independence under later edits is exercised by the bounded edit battery.",
+            "Proof of the frame condition by an effect / may-alias analysis over the real ASTs (pyvc/frame.py): for each of the 64 public functions of tx, props, sat, the io writers, utils.lint/visualize and the read-only Circuit methods, every potentially mutating operation (Circuit mutators, networkx graph mutators, dict/attribute stores, in-place relabel) is shown to be applied only to objects allocated in that activation, on all branches and exceptional edges, and every returned circuit (also inside returned containers) is shown not to share its graph, node-attribute dicts or registry with an argument. Circuit.copy additionally has its contract (fresh graph and registry, equal views) proved on its body. Independence under later edits is exercised by the bounded edit battery.",
             "assumed: effect summaries of networkx / dict operations and of the library's own mutators (pyvc/frame.py: copy() and relabel_nodes(copy=True) return fresh objects, subgraph() is a view sharing attribute dicts, BlackBox objects are immutable and shared by design); assume-guarantee between library functions (each callee's fresh-result summary is the obligation of its own task); values are abstracted, so a flagged site is 'undecided', not a violation"),
 }
 for _p, (_lvl, _txt, _note) in LEVELS.items():
